@@ -101,6 +101,8 @@ def check_strict_verify(v, r, what='verify'):
         if r[0] == 'OS' and ((getattr(v, 'oserr', None) and r[1] in v.oserr) or (r[1] == 'ENOTDIR' and getattr(v, 'enotdir', False))):
             # ... and so is the genuine OS error of an object met before the loop
             return out, 'loop-or-earlier-os-error'
+        if r[0] == 'GE' and r[1] == 'UnsupportedHash' and (getattr(v, 'unsupported', False) or 'unsupported-hash' in v.offending.values()):
+            return out, 'loop-or-earlier-unsupported-hash'
         out.append(viol('walk.loop-not-reported', '%s: symlink loop, gemato %s' % (what, describe(r)), sig='%s:%s' % (r[0], r[1])))
         return out, None
     raise AssertionError(k)
